@@ -99,7 +99,7 @@ Definition two_seconds : Z := 2000000000.
    When the proposed repair (findings/C13-*.json) is committed to /repo, set this to true:
    the model then follows the repaired code and Props/C13.v's c13_content_no_panic_after_repair
    is the full theorem about it. *)
-Definition repo_repaired : bool := true.
+Definition repo_repaired : bool := false.
 
 Definition outcome_eqb (a b : outcome) : bool :=
   tracks_eqb (o_tracks a) (o_tracks b) && oend_eqb (oend_of (o_end a)) (oend_of (o_end b))
